@@ -61,6 +61,17 @@ theorem init_publishes_last :
     (Foot.generated.events "ovni_proc_init").getLast? =
       some (Ovni.Generated.Footprint.kStore, Ovni.Generated.Footprint.stReady, 0, "st") := by decide
 
+/-- Every path a thread-level function builds contains `thread.%d` (the two
+    files of the model are `…/thread.<tid>/stream.obs` and
+    `…/thread.<tid>/stream.json`, formatted with `rthread.tid`): FS
+    operations of different threads go to different paths. -/
+theorem thread_paths_contain_tid :
+    (∀ r ∈ Ovni.Generated.Footprint.pathFormats, r.1 ∉ procLevelPathFns →
+        hasInfix tidPattern r.2.2 = true) ∧
+    ("create_trace_stream", "%s/thread.%d/stream.obs") ∈ Ovni.Generated.Footprint.pathFormats.map (fun r => (r.1, r.2.1)) ∧
+    ("thread_metadata_store", "%s/thread.%d/stream.json") ∈ Ovni.Generated.Footprint.pathFormats.map (fun r => (r.1, r.2.1)) := by
+  decide
+
 /-! ### Exactly once -/
 
 /-- A race: the process state is `frm`; threads `0 … N-1` are each about to
